@@ -39,19 +39,21 @@ type Node struct {
 	peers   map[int]*simnode.Peer // peers[j] represents remote node j as seen from this node
 	app     *recApp
 
-	alive    bool
-	incarn   int  // restarts so far
-	failed   bool // consensus routine reported CONSENSUS FAILURE
-	failMsg  string
-	killReq  bool // node asked to be killed (cmn.Kill)
-	killSeen bool
-	fveRejected string // the FaultValidatorsEvidence check of this node rejected a block
-	outbox   []cs.ConsensusMessage
-	timer    *pendingTimer
-	timerGen int
-	skewNum  int // timeouts are multiplied by skewNum/8
-	useWAL   bool
-	lastProg time.Duration // last time the node committed
+	alive       bool
+	incarn      int  // restarts so far
+	failed      bool // consensus routine reported CONSENSUS FAILURE
+	failMsg     string
+	killReq     bool // node asked to be killed (cmn.Kill)
+	killSeen    bool
+	frozen      bool          // durable image frozen mid-event: the node is a zombie until torn down
+	downFor     time.Duration // how long the node stays down after the pending crash
+	fveRejected string        // the FaultValidatorsEvidence check of this node rejected a block
+	outbox      []cs.ConsensusMessage
+	timer       *pendingTimer
+	timerGen    int
+	skewNum     int // timeouts are multiplied by skewNum/8
+	useWAL      bool
+	lastProg    time.Duration // last time the node committed
 }
 
 type pendingTimer struct {
@@ -165,7 +167,7 @@ type recPV struct {
 
 func (p *recPV) SignVote(chainID string, vote *types.Vote) error {
 	err := p.FilePV.SignVote(chainID, vote)
-	if vote.Signature != nil {
+	if vote.Signature != nil && !p.n.frozen {
 		kind := "prevote"
 		if vote.Type == types.VoteTypePrecommit {
 			kind = "precommit"
@@ -177,7 +179,7 @@ func (p *recPV) SignVote(chainID string, vote *types.Vote) error {
 
 func (p *recPV) SignProposal(chainID string, proposal *types.Proposal) error {
 	err := p.FilePV.SignProposal(chainID, proposal)
-	if proposal.Signature != nil {
+	if proposal.Signature != nil && !p.n.frozen {
 		p.n.cl.orc.releasedProposal(p.n, proposal)
 	}
 	return err
@@ -195,7 +197,7 @@ type recApp struct {
 func (a *recApp) CommitBlock(block *types.Block, blockParts *types.PartSet, seenCommit *types.Commit, fastsync bool) ([]*types.Validator, error) {
 	a.n.cl.orc.committing(a.n, block, seenCommit)
 	vals, err := a.BlockChainApp.CommitBlock(block, blockParts, seenCommit, fastsync)
-	if err == nil {
+	if err == nil && !a.n.frozen {
 		a.n.cl.orc.committed(a.n, block)
 	}
 	return vals, err
